@@ -106,7 +106,7 @@ class Layout:
         return {k: r.text for k, r in self.rendered.items()}
 
 
-SHAPES = ["single", "chain", "diamond", "lookup_shadow", "nested_rel", "absolute", "mixed", "reimport"]
+SHAPES = ["single", "chain", "diamond", "lookup_shadow", "nested_rel", "absolute", "mixed", "reimport", "sibling_prefix"]
 
 
 def make_layout(rnd: random.Random, shape=None, nmacros=None, rich=True):
@@ -136,6 +136,10 @@ def make_layout(rnd: random.Random, shape=None, nmacros=None, rich=True):
         fkeys = ["proj/SCRIPT/main.exps", "proj/SCRIPT/lib/a.exps", "proj/SCRIPT/lib/b.exps", "proj/SCRIPT/lib/base.exps"]
         first, second = (("rel", "./lib/a.exps"), ("rel", "./lib/b.exps")) if rnd.random() < 0.5 else (("rel", "./lib/b.exps"), ("rel", "./lib/a.exps"))
         imports = {fkeys[0]: [first, second], fkeys[1]: [("rel", "./base.exps")], fkeys[2]: [("rel", "./a.exps")], fkeys[3]: []}
+    elif shape == "sibling_prefix":
+        # directories whose names are prefixes of each other (SCRIPT / SCRIPT_common / SCRIPT_common2): paths are not strings
+        fkeys = ["proj/SCRIPT/main.exps", "proj/SCRIPT_common/a.exps", "proj/SCRIPT_common2/b.exps", "proj/SCRIPT/sub/c.exps"]
+        imports = {fkeys[0]: [("rel", "../SCRIPT_common/a.exps"), ("rel", "./sub/c.exps")], fkeys[1]: [("rel", "../SCRIPT_common2/b.exps")], fkeys[2]: [], fkeys[3]: []}
     elif shape == "absolute":
         fkeys = ["proj/SCRIPT/main.exps", "elsewhere/abs/a.exps"]
         imports = {fkeys[0]: [("abs", "elsewhere/abs/a.exps")], fkeys[1]: []}
